@@ -82,24 +82,24 @@ let render_octets (b : BinNums.coq_N list) =
       (Stdlib.List.length m.MsgWriterS.m_ar)
       (String.concat "," (Stdlib.List.map q m.MsgWriterS.m_qs)) (sec m.MsgWriterS.m_an) (sec m.MsgWriterS.m_ns) (sec m.MsgWriterS.m_ar) (hex b)
 
-let parse_catalog spec =
+(* the catalog is built the way the server's configuration builds it: Catalog::insert of every entry in
+   order into the hash-map tree (Model/CatTree.v; a later entry with an equal (class, name) replaces the
+   earlier one inside the tree); the server model then runs on the flat view of that tree
+   (Model/ServerCat.v), which Props/C07.v c07_catalog_tree_link proves equivalent to the tree's own lookup *)
+let parse_catalog spec : Server.entry_kind CatTree.entry list =
   if spec = "-" then [] else
   Stdlib.List.mapi (fun i e ->
     match String.split_on_char ',' e with
     | cl :: nm :: st :: _ ->
-      { Server.e_class = n_of_int (int_of_string cl); Server.e_name = labels_of_wirehex nm;
-        Server.e_kind = (match st with "N" -> Server.ENotYetLoaded | "F" -> Server.EFailedToLoad
+      { CatTree.e_class = n_of_int (int_of_string cl); CatTree.e_name = Server.wire_labels (unhex nm);
+        CatTree.e_val = (match st with "N" -> Server.ENotYetLoaded | "F" -> Server.EFailedToLoad
                                      | _ -> Server.ELoaded (nat_of_int i)) }
     | _ -> failwith "bad catalog entry") (String.split_on_char ';' spec)
 
-(* HashMap insert: a later entry with an equal (class, name) replaces the earlier one *)
-let dedup_catalog es =
-  let rec go acc = function
-    | [] -> Stdlib.List.rev acc
-    | e :: rest ->
-      let same x = x.Server.e_class = e.Server.e_class && x.Server.e_name = e.Server.e_name in
-      go (e :: Stdlib.List.filter (fun x -> not (same x)) acc) rest in
-  go [] es
+let tree_catalog es =
+  match ServerCat.tree_of_entries es with
+  | Res.Ok c -> ServerCat.flat_of_tree c
+  | _ -> failwith "catalog insert panicked"
 
 let parse_keys spec =
   if spec = "-" then [] else
@@ -129,7 +129,7 @@ let () = run_lines (fun f ->
     let cfg = { Server.c_transport = (if tr = "t" then Server.Tcp else Server.Udp);
                 Server.c_edns_size = n_of_int (int_of_string edns);
                 Server.c_buflen = nat_of_int 65535;
-                Server.c_catalog = dedup_catalog (parse_catalog cat);
+                Server.c_catalog = tree_catalog (parse_catalog cat);
                 Server.c_keys = parse_keys keys; Server.c_now = n_of_int 0 } in
     (match Server.handle_message answer verify cfg (unhex req) with
      | Res.Panic -> "panic"
